@@ -472,9 +472,12 @@ func (s *skel) line(indent int, format string, a ...interface{}) {
 func srcText(p *packages.Package, n ast.Node) string {
 	var b strings.Builder
 	fset := p.Fset
+	if !n.Pos().IsValid() || !n.End().IsValid() || n.End() < n.Pos() {
+		return "(rewritten statement)" // a node synthesised by the translator (desugared switch)
+	}
 	start, end := fset.Position(n.Pos()), fset.Position(n.End())
 	data, err := readFileCached(start.Filename)
-	if err != nil {
+	if err != nil || start.Filename != end.Filename || end.Offset > len(data) || start.Offset > end.Offset {
 		return "?"
 	}
 	b.Write(data[start.Offset:end.Offset])
@@ -511,6 +514,15 @@ func (s *skel) stmts(list []ast.Stmt, indent int, defers []string) {
 		return
 	}
 	st, rest := list[0], list[1:]
+	if sw, isSwitch := st.(*ast.SwitchStmt); isSwitch {
+		if is, ok := desugarSwitch(sw); ok {
+			st = is
+			if blk, isBlk := is.(*ast.BlockStmt); isBlk && len(blk.List) == 0 {
+				s.stmts(rest, indent, defers)
+				return
+			}
+		}
+	}
 	if s.stmtHook != nil && s.stmtHook(s, st, indent) {
 		s.stmts(rest, indent, defers)
 		return
